@@ -403,7 +403,7 @@ func ghostStr(obj any, name string) string { return "" }
 func ghostInt(obj any, name string) int { return 0 }
 func ghostBool(obj any, name string) bool { return false }
 func ghostAny(obj any, name string) any { return nil }
-func flag(name string) bool { return false }
+func ghostFlag(name string) bool { return false }
 func globStr(name string) string { return "" }
 func globInt(name string) int { return 0 }
 func gvcModLoc(p any) {}
@@ -433,6 +433,8 @@ func mergoOverride[T any](dst, src T) T { return dst }
 func deepEq[T any](a, b T) bool { return false }
 func forallKeys[M any](m M, f func(k string) bool) bool { return true }
 func forallStr(f func(k string) bool) bool { return true }
+func globErr(name string) error { return nil }
+func readerContent(r any) string { return "" }
 func dynType(x any) string { return "" }
 `
 
@@ -620,11 +622,11 @@ func splitTop(s string) []string {
 
 var ghostNames = map[string]bool{
 	"old": true, "implies": true, "iff": true, "fresh": true, "allocated": true, "forall": true, "exists": true,
-	"ghostStr": true, "ghostInt": true, "ghostBool": true, "ghostAny": true, "flag": true, "globStr": true, "globInt": true,
+	"ghostStr": true, "ghostInt": true, "ghostBool": true, "ghostAny": true, "ghostFlag": true, "globStr": true, "globInt": true,
 	"gvcModLoc": true, "gvcModGhost": true, "gvcModFlag": true, "gvcModMap": true, "gvcModGlob": true,
 	"fsContent": true, "fsExists": true, "fsReadable": true, "fsIsDir": true, "fsMode": true, "fsSize": true, "fsMTime": true,
 	"fsLink": true, "fsIsLink": true, "ufStr": true, "ufInt": true, "ufBool": true,
-	"errIs": true, "errAsSigningFailure": true, "errMsg": true, "mapHas": true, "bit": true, "isNilFunc": true, "dynType": true, "mergoOverride": true, "deepEq": true, "forallKeys": true, "forallStr": true,
+	"errIs": true, "errAsSigningFailure": true, "errMsg": true, "mapHas": true, "bit": true, "isNilFunc": true, "dynType": true, "mergoOverride": true, "deepEq": true, "forallKeys": true, "forallStr": true, "globErr": true, "readerContent": true,
 }
 
 func ghostBuiltin(fn *ssa.Function) string {
@@ -727,7 +729,7 @@ func (e *Engine) ghostCall(c *CallCtx, g string, fn *ssa.Function) *Term {
 		return e.ghostGet(st, e.constStr(c.args[1]), BoolS, e.objKey(c.args[0]))
 	case "ghostAny":
 		return e.ghostGet(st, e.constStr(c.args[1]), IfaceS, e.objKey(c.args[0]))
-	case "flag":
+	case "ghostFlag":
 		return e.flagGet(st, e.constStr(c.args[0]))
 	case "globStr":
 		return e.globGet(st, e.constStr(c.args[0]), StringS)
@@ -799,6 +801,15 @@ func (e *Engine) ghostCall(c *CallCtx, g string, fn *ssa.Function) *Term {
 	case "deepEq":
 		T := fn.Signature.Params().At(0).Type()
 		return e.deepEq(st, T, c.args[0], c.args[1])
+	case "globErr":
+		return e.globGet(st, e.constStr(c.args[0]), IfaceS)
+	case "readerContent":
+		// what reading the reader to its end would deliver (evaluated on a copy
+		// of the state: no effect)
+		sub := *c
+		sub.st = st.clone()
+		d, _ := e.drain(&sub, c.args[0])
+		return d
 	case "forallStr":
 		if c.args[0].Op != "int" {
 			panic("forallStr: closure must be a literal")
